@@ -192,7 +192,9 @@ def random_program(rng, nthreads=3, nops=9):
         for t in range(nthreads):
             for k in sorted(held[t]):
                 progs[t].append(("endtask:%d" if k < 100 else "relpa:%d") % k)
-    return [p for p in progs]
+    # a thread without operations would still take one scheduler step: drop it (if Main has none, nobody calls
+    # ready / raises a counter without owning load, so the renumbering is harmless)
+    return [p for p in progs if p] or [["ready"]]
 
 
 def op_tla(s):
